@@ -120,6 +120,51 @@ def lookupBase (bases : List (Nat × Level)) (r : Nat) : Option Level :=
 def listing (ms : MultSeq) (levels : List (Option Level)) : List String :=
   (ms.resn.zip levels).filterMap fun rl => rl.2.map fun _ => "/resolutions/" ++ toString rl.1
 
+/-! ### the output FILE across calls (the same path written again)
+
+`zoomify_cooler` opens `outfile` with mode `"w"` for the first base (the file is TRUNCATED: whatever an
+earlier run — another ladder, another base, a legacy quad-tree, a single-resolution cooler — left at
+that path is gone), `"r+"` for further bases, and `create(..., mode="r+")` for every derived level
+(a group of the same name is replaced).  The file is modelled as far as `list_coolers` sees it: the
+cooler collections by group key. -/
+
+/-- where a collection sits in a file: `/resolutions/<r>` or any other group path -/
+inductive GKey
+  | resolution (r : Nat)
+  | other (path : String)
+deriving DecidableEq, Repr
+
+/-- a file: its collections in order of creation (the order is not observable, `list_coolers` sorts) -/
+abbrev MFile := List (GKey × Level)
+
+/-- writing a collection: a group of that key already in the file is replaced -/
+def putGroup (f : MFile) (k : GKey) (l : Level) : MFile := f.filter (fun e => !(e.1 == k)) ++ [(k, l)]
+
+inductive FileOp
+  | truncate
+  | put (k : GKey) (l : Level)
+
+def applyOp (f : MFile) : FileOp → MFile
+  | .truncate => []
+  | .put k l => putGroup f k l
+
+/-- the collections one run writes: level `i` under `/resolutions/<resn[i]>` -/
+def zoomEntries (cs : Nat) (ms : MultSeq) (baseOf : Nat → Option Level) : MFile :=
+  (ms.resn.zip (zoomify cs ms baseOf)).filterMap fun rl => rl.2.map fun l => (GKey.resolution rl.1, l)
+
+/-- one run as operations on `outfile`: truncate, then one `put` per level.  (The code puts the base
+levels first and the derived ones afterwards; as a map from keys to levels the result is the same.) -/
+def zoomifyOps (cs : Nat) (ms : MultSeq) (baseOf : Nat → Option Level) : List FileOp :=
+  .truncate :: (zoomEntries cs ms baseOf).map fun e => FileOp.put e.1 e.2
+
+/-- the file after one run, given what was at that path before -/
+def zoomifyFile (prior : MFile) (cs : Nat) (ms : MultSeq) (baseOf : Nat → Option Level) : MFile :=
+  (zoomifyOps cs ms baseOf).foldl applyOp prior
+
+def keyPath : GKey → String
+  | .resolution r => "/resolutions/" ++ toString r
+  | .other p => p
+
 /-! ### preferred_sequence and the CLI resolution spec -/
 
 inductive Style | binary | nice
